@@ -523,7 +523,14 @@ namespace ip {
 				p.overhead = 40;
 				p.hops = hops;
 				p.seq_nr = m_next_outgoing_seq++;
-				p.drop_fun = std::bind(&tcp::socket::packet_dropped, this, _1);
+				// the notification goes via the forwarder, which is detached
+				// when this socket is closed or destroyed and follows it when
+				// it's moved. The segment may be dropped long after that
+				std::shared_ptr<aux::sink_forwarder> fwd = m_forwarder;
+				p.drop_fun = [fwd](aux::packet pkt) {
+					if (auto* self = static_cast<tcp::socket*>(fwd->target()))
+						self->packet_dropped(std::move(pkt));
+				};
 
 				send_packet(std::move(p));
 				ptr += packet_size;
@@ -765,6 +772,9 @@ namespace ip {
 
 	void tcp::socket::packet_dropped(aux::packet p)
 	{
+		// the connection may be gone by now (e.g. the peer's EOF was read)
+		if (!m_channel) return;
+
 		int remote = m_channel->remote_idx(m_bound_to);
 		p.hops = m_channel->hops[remote];
 
@@ -778,7 +788,11 @@ namespace ip {
 		}
 		// the drop notification is one-shot (whoever dropped the packet moved it
 		// out), re-arm it for the re-send
-		p.drop_fun = std::bind(&tcp::socket::packet_dropped, this, _1);
+		std::shared_ptr<aux::sink_forwarder> fwd = m_forwarder;
+		p.drop_fun = [fwd](aux::packet pkt) {
+			if (auto* self = static_cast<tcp::socket*>(fwd->target()))
+				self->packet_dropped(std::move(pkt));
+		};
 		m_outgoing_packets.push_back(std::move(p));
 
 		const int packets_in_cwnd = m_cwnd / m_mss;
